@@ -21,6 +21,7 @@ import (
 	"strings"
 	"sync"
 	"syscall"
+	"unsafe"
 
 	"github.com/aws/aws-sdk-go/aws"
 	"github.com/aws/aws-sdk-go/aws/request"
@@ -44,6 +45,7 @@ type beRec struct {
 	Problems []string `json:"problems"`
 	K        int      `json:"k"`
 	Variant  string   `json:"variant,omitempty"`
+	Killed   bool     `json:"killed,omitempty"` // the child process died from SIGXFSZ inside write(2)
 }
 
 // ---- fake S3 ---------------------------------------------------------------------------------
@@ -170,6 +172,58 @@ func contract(name string, p mast.Persist, rng *rand.Rand, n int, enc *json.Enco
 			}
 		}
 		enc.Encode(rec)
+		if i%3 == 0 {
+			// a name nobody has written yet, stored by several writers at once (as the 40 Store goroutines of two
+			// trees persisting the same node do), with a payload large enough for their writes to overlap, while a
+			// reader polls: every Store must succeed, the reader sees not-found or the complete bytes, and the
+			// name loads afterwards
+			nm2 := genName(rng)
+			big := make([]byte, 1<<20+rng.Intn(1<<20))
+			rng.Read(big)
+			rec := beRec{Backend: name, Case: "concurrent-first-store", Name: nm2, Len: len(big), Problems: []string{}}
+			var wg sync.WaitGroup
+			errs := make([]error, 8)
+			stop := make(chan struct{})
+			var partial string
+			var rwg sync.WaitGroup
+			rwg.Add(1)
+			go func() {
+				defer rwg.Done()
+				for {
+					select {
+					case <-stop:
+						return
+					default:
+					}
+					if got, err := p.Load(ctx, nm2); err == nil && !bytes.Equal(got, big) && partial == "" {
+						partial = fmt.Sprintf("a concurrent Load returned %d of %d bytes", len(got), len(big))
+					}
+				}
+			}()
+			for j := range errs {
+				wg.Add(1)
+				go func(j int) { defer wg.Done(); errs[j] = p.Store(ctx, nm2, big) }(j)
+			}
+			wg.Wait()
+			close(stop)
+			rwg.Wait()
+			if partial != "" {
+				rec.Problems = append(rec.Problems, partial)
+			}
+			for _, e := range errs {
+				if e != nil {
+					rec.Problems = append(rec.Problems, "concurrent first store failed: "+e.Error())
+					break
+				}
+			}
+			if got, err := p.Load(ctx, nm2); err != nil || !bytes.Equal(got, big) {
+				rec.Problems = append(rec.Problems, "after concurrent first stores (all reported success) the name does not load with its bytes")
+			}
+			if after != nil {
+				rec.Problems = append(rec.Problems, after(nm2, big)...)
+			}
+			enc.Encode(rec)
+		}
 	}
 }
 
@@ -273,6 +327,14 @@ func fileChild(args []string) int {
 	if limit >= 0 {
 		if args[4] == "ignore" {
 			signal.Ignore(syscall.SIGXFSZ)
+		} else {
+			// a real crash: put SIGXFSZ back to its default disposition (the Go runtime installs a handler that
+			// swallows it), so that the kernel kills this process inside write(2) after exactly `limit` bytes
+			var act [4]uint64
+			if _, _, e := syscall.RawSyscall6(syscall.SYS_RT_SIGACTION, uintptr(syscall.SIGXFSZ), uintptr(unsafe.Pointer(&act)), 0, 8, 0, 0); e != 0 {
+				fmt.Println("rt_sigaction:", e)
+				return 3
+			}
 		}
 		lim := syscall.Rlimit{Cur: uint64(limit), Max: uint64(limit)}
 		if err := syscall.Setrlimit(syscall.RLIMIT_FSIZE, &lim); err != nil {
@@ -311,6 +373,14 @@ func crashMain(args []string) int {
 				rec := beRec{Backend: "file", Case: "crash", Name: nm, Len: ln, K: k, Variant: variant, Problems: []string{}}
 				out, err := exec.Command(self, "filechild", dir, nm, hex.EncodeToString(b), strconv.Itoa(k), variant).CombinedOutput()
 				reported := err == nil && strings.HasPrefix(string(out), "OK")
+				if ee, ok := err.(*exec.ExitError); ok {
+					if ws, ok := ee.Sys().(syscall.WaitStatus); ok && ws.Signaled() {
+						rec.Killed = true
+					}
+				}
+				if variant == "die" && k < ln && !rec.Killed {
+					rec.Problems = append(rec.Problems, "harness: the child was not killed by SIGXFSZ (no crash was exercised): "+strings.TrimSpace(string(out)))
+				}
 				p := file.NewPersistForPath(dir)
 				got, lerr := p.Load(ctx, nm)
 				if lerr == nil && !bytes.Equal(got, b) {
